@@ -267,12 +267,13 @@ def _rays_for(rng, spec, Rm, a, nrays, n_in, backward=False, maxang=None):
         Sl = _unit(th, az)
         if spec['kind'] in ('refr', 'refract') and n_in > n1:
             # stay below the critical angle with margin: n sin i <= 0.8 n'
-            _, N = implicit(sh, np.array([xl, yl, _local_sag(sh, xl, yl)]))
-            Nh = N / np.linalg.norm(N)
-            for _ in range(20):
+            for _ in range(40):
+                _, N = implicit(sh, np.array([xl, yl, _local_sag(sh, xl, yl)]))
+                Nh = N / np.linalg.norm(N)
                 if n_in * np.linalg.norm(np.cross(Sl, Nh)) <= 0.8 * n1:
                     break
-                th *= 0.6
+                th *= 0.6                  # less oblique ...
+                xl, yl = 0.8 * xl, 0.8 * yl  # ... and closer to the vertex, where the surface is less steep
                 Sl = _unit(th, az)
         if backward:
             Sl = Sl * np.array([1, 1, -1.0])
@@ -465,6 +466,12 @@ def correspondence(ctx):
                         ctx.disagree('trace', case, 'traced', 'model: Newton did not converge')
                     else:
                         ctx.hist['trace:both-miss'] += 1
+                    continue
+                if not all(np.isfinite(h['Sg']).all() and np.isfinite(h['Pg']).all() for h in model):
+                    # total internal reflection in the model (sqrt of a negative radicand): outside the property's scope
+                    if np.isfinite(sh).all():
+                        ctx.disagree('trace', case, {'S': sh[-1].tolist()}, 'model: beyond the critical angle')
+                    ctx.hist['trace:beyond-critical-angle'] += 1
                     continue
                 if not all(_in_domain(sp['shape'], h['Ploc']) for sp, h in zip(specs, model)):
                     ctx.hist['trace:outside-domain'] += 1     # the ray leaves the part of a later surface the generator aims at
